@@ -81,7 +81,8 @@ func init() {
 	reg(&Profile{Name: "c06", PForged: 10, Property: "C06", Oracles: []string{"roots", "lookup", "prove", "provable-set", "partial"},
 		Nodes: func(r *Rng) []NodeCfg {
 			return []NodeCfg{{Kind: "pollard"}, {Kind: "mapfull", TotalRows: -1, DetMaps: r.Bool()}, {Kind: "mapfull", TotalRows: 0},
-				mapNode("mapfull", r), {Kind: "mappartial", TotalRows: -1}, mapNode("mappartial", r), {Kind: "mappartial", TotalRows: -1, Big: bigOffset(r)}}
+				mapNode("mapfull", r), {Kind: "mappartial", TotalRows: -1}, mapNode("mappartial", r), {Kind: "mappartial", TotalRows: -1, Big: bigOffset(r)},
+				{Kind: "mappartial", TotalRows: -1, FromRoots: 1 + r.Intn(3), FullRoots: true}}
 		},
 		MaxBlocks: 30, MaxAdds: 40, PReorg: 30, PSnapCrash: 3, NetFaults: true})
 	lightNodes := func(r *Rng) []NodeCfg {
